@@ -162,10 +162,7 @@ impl WorkerState for W {
         if case.first().map(|c| c.as_slice()) == Some(b"#!script") {
             return String::from_utf8_lossy(case.get(1).map(|c| c.as_slice()).unwrap_or(b"")).to_string();
         }
-        let empty: Vec<u8> = Vec::new();
-        let s0 = case.first().unwrap_or(&empty);
-        let s1 = case.get(1).unwrap_or(&empty);
-        let prog = Gen::new(s0, s1, self.prof.clone()).program(&main_ret_choices(self.kind));
+        let prog = self.make_program(case);
         let mut out = print_program(&prog, Parens::Minimal);
         for i in 0..N_INPUTS {
             if let Some(chunk) = case.get(2 + i) {
@@ -182,10 +179,7 @@ impl WorkerState for W {
         if case.first().map(|c| c.as_slice()) == Some(b"#!script") {
             return String::new();
         }
-        let empty: Vec<u8> = Vec::new();
-        let s0 = case.first().unwrap_or(&empty);
-        let s1 = case.get(1).unwrap_or(&empty);
-        let prog = Gen::new(s0, s1, self.prof.clone()).program(&main_ret_choices(self.kind));
+        let prog = self.make_program(case);
         let sig = sig.to_string();
         if sig.starts_with("crash:") {
             // crash-type failure: evaluate every candidate in a forked child
@@ -213,15 +207,23 @@ impl WorkerState for W {
         if let Some(o) = run_script_case(&self.rt, case) {
             return o;
         }
-        let empty: Vec<u8> = Vec::new();
-        let s0 = case.first().unwrap_or(&empty);
-        let s1 = case.get(1).unwrap_or(&empty);
-        let prog = Gen::new(s0, s1, self.prof.clone()).program(&main_ret_choices(self.kind));
+        let prog = self.make_program(case);
         self.check_program(&prog, case, render)
     }
 }
 
 impl W {
+    /// C02 draws 2 programs in 5 from the layout-directed generator (lgen.rs)
+    fn make_program(&self, case: &Case) -> Program {
+        let empty: Vec<u8> = Vec::new();
+        let s0 = case.first().unwrap_or(&empty);
+        let s1 = case.get(1).unwrap_or(&empty);
+        if self.kind == Kind::C02 && s0.first().copied().unwrap_or(0) >= 154 {
+            return crate::lgen::LGen::new(&s0[1..], true).program();
+        }
+        Gen::new(s0, s1, self.prof.clone()).program(&main_ret_choices(self.kind))
+    }
+
     fn check_program(&mut self, prog: &Program, case: &Case, render: bool) -> Outcome {
         check_program_with(&self.rt, self.kind, prog, None, case, render)
     }
